@@ -103,7 +103,15 @@ def gen_plan(rng, tier='quick', traces=None):
         nxt[c] += 1
     for c, k in rng.sample(done, min(len(done), rng.randint(0, 4))):
         schedule.append({'c': c, 'k': k, 'dup': True})
-    return {'property': 'C20', 'tier': tier, 'pool': pool, 'clients': clients, 'schedule': schedule,
+    # per-call pristine reference for a sample of steps (fork per call is the cost)
+    iso = {}
+    budget_iso = rng.choice([0, 4, 8, 16])
+    cand = [(c, k) for c in range(nclients) for k, stp in enumerate(clients[c]['steps']) if not stp['fn'].startswith('caller.')]
+    for c, k in rng.sample(cand, min(len(cand), budget_iso)):
+        iso.setdefault(str(c), []).append(k)
+    for v in iso.values():
+        v.sort()
+    return {'property': 'C20', 'tier': tier, 'pool': pool, 'clients': clients, 'schedule': schedule, 'iso': iso,
             'poison': rng.random() < 0.8, 'poison_seed': rng.randrange(1 << 30)}
 
 
@@ -195,7 +203,7 @@ def _n_of(objs):
     return max([len(o) for o in objs if isinstance(o, np.ndarray)] + [8])
 
 
-def _call_step(step, objs, results, findings, where, type_only):
+def _call_step(step, objs, results, findings, where, type_only, iso=None):
     """Execute one step.  Returns ('ok', value) | ('exc', enc) | ('div',) | ('skip',)."""
     try:
         args = [_resolve(a, objs, results) for a in step['args']]
@@ -205,15 +213,30 @@ def _call_step(step, objs, results, findings, where, type_only):
     except Exception as e:       # caller-side op failed (e.g. indexing with a float result): a value, same in all worlds
         return ('exc', worlds.enc_exc(e, True))
     fn = step['fn']
-    try:
-        if fn.startswith('caller.'):
+    if fn.startswith('caller.'):
+        try:
             if fn == 'caller.take':
-                i = args[1]
-                i = np.asarray(i)
+                i = np.asarray(args[1])
                 return ('ok', args[0][i.astype(int)])
             raise ValueError(fn)
+        except Exception as e:
+            return ('exc', worlds.enc_exc(e, type_only))
+    o = _invoke(fn, args, kw, budget.limit_for(_n_of(objs)), findings, where, type_only)
+    if iso is not None:
+        # the same call, by value, in a process that has never run anything else
+        ref = iso.call(fn, args, kw, budget.limit_for(_n_of(objs)), type_only)
+        if ref[0] == 'harness':
+            raise isolate.ChildFailed(ref[1])
+        if ref != _enc_outcome(o):
+            findings.append({'oracle': 'P2', 'key': 'P2iso:%s' % fn, 'where': where, 'fn': fn,
+                             'detail': {'in_client_history': _short(_enc_outcome(o)), 'pristine_process': _short(ref)}})
+    return o
+
+
+def _invoke(fn, args, kw, limit, findings, where, type_only):
+    try:
         f = _pkg_attr(fn)
-        st, val = budget.run(budget.limit_for(_n_of(objs)), f, *args, **kw)
+        st, val = budget.run(limit, f, *args, **kw)
         if st == 'diverged':
             return ('div',)
         return ('ok', val)
@@ -226,6 +249,97 @@ def _call_step(step, objs, results, findings, where, type_only):
         return ('exc', worlds.enc_exc(e, type_only))
 
 
+def _iso_do(msg):
+    fn, args, kw, limit, type_only = msg
+    return _enc_outcome(_invoke(fn, args, kw, limit, [], None, type_only))
+
+
+class CallServer(object):
+    """A process forked from the pristine run process that never executes library code itself;
+    for every request it forks a grandchild that performs exactly one public call."""
+
+    def __init__(self):
+        import os
+        self.req_r, self.req_w = os.pipe()
+        self.res_r, self.res_w = os.pipe()
+        self.pid = os.fork()
+        if self.pid == 0:
+            code = 0
+            try:
+                os.close(self.req_w)
+                os.close(self.res_r)
+                self._serve()
+            except BaseException:
+                code = 3
+            finally:
+                os._exit(code)
+        os.close(self.req_r)
+        os.close(self.res_w)
+        self.calls = 0
+
+    @staticmethod
+    def _write(fd, obj):
+        import os
+        import pickle
+        import struct
+        data = pickle.dumps(obj, protocol=4)
+        data = struct.pack('<Q', len(data)) + data
+        while data:
+            n = os.write(fd, data)
+            data = data[n:]
+
+    @staticmethod
+    def _read(fd):
+        import os
+        import pickle
+        import struct
+        head = b''
+        while len(head) < 8:
+            b = os.read(fd, 8 - len(head))
+            if not b:
+                return None
+            head += b
+        n = struct.unpack('<Q', head)[0]
+        buf = b''
+        while len(buf) < n:
+            b = os.read(fd, min(1 << 16, n - len(buf)))
+            if not b:
+                return None
+            buf += b
+        return pickle.loads(buf)
+
+    def _serve(self):
+        while True:
+            msg = self._read(self.req_r)
+            if msg is None:
+                return
+            try:
+                out = isolate.call(_iso_do, (msg,), timeout=120)
+            except Exception as e:
+                out = ('harness', str(e)[-500:])
+            self._write(self.res_w, out)
+
+    def call(self, fn, args, kw, limit, type_only):
+        try:
+            self._write(self.req_w, (fn, args, kw, limit, type_only))
+        except Exception as e:      # unpicklable argument: no verdict for this call
+            return ('harness', 'cannot transfer arguments: %s' % e)
+        self.calls += 1
+        out = self._read(self.res_r)
+        if out is None:
+            return ('harness', 'call server died')
+        return out
+
+    def close(self):
+        import os
+        try:
+            os.close(self.req_w)
+            os.close(self.res_r)
+            os.waitpid(self.pid, 0)
+        except Exception:
+            pass
+
+
 def _enc_outcome(o):
     if o[0] == 'ok':
         return ('ok', worlds.enc(o[1]))
@@ -233,16 +347,24 @@ def _enc_outcome(o):
 
 
 def run_ref_client(plan, c):
-    """W_ref: one client alone, plain world.  Executed in a forked child."""
+    """W_ref: one client alone, plain world.  Executed in a forked child of the pristine run
+    process.  For the steps listed in plan['iso'][c] the call is additionally performed, by
+    value, in a process that has never run anything else (call server)."""
     objs = _materialise(plan['pool'], 'ref')
     results = {}
     out = {}
+    findings = []
     type_only = _type_only(plan)
+    probe = set((plan.get('iso') or {}).get(str(c), []))
     for k, step in enumerate(plan['clients'][c]['steps']):
-        o = _call_step(step, objs, results, [], None, type_only)
+        iso = _SERVER if (k in probe and _SERVER is not None) else None
+        o = _call_step(step, objs, results, findings, [None, c, k], type_only, iso)
         results[k] = o
         out[k] = _enc_outcome(o)
-    return out
+    return out, findings, (_SERVER.calls if _SERVER is not None else 0)
+
+
+_SERVER = None
 
 
 def _type_only(plan):
@@ -321,12 +443,24 @@ def _short(e, lim=160):
 def execute(plan, stats=None, want_events=True):
     """Run both worlds and compare.  Must be called in a process that has not executed library
     code beyond the fixed warm-up (the runner forks one child per run)."""
+    global _SERVER
     st = stats if stats is not None else {}
     ref = {}
-    for c in range(len(plan['clients'])):
-        ref[c] = isolate.call(run_ref_client, (plan, c), timeout=240)
-        st['forks'] = st.get('forks', 0) + 1
+    ref_findings = []
+    _SERVER = CallServer() if plan.get('iso') else None
+    try:
+        for c in range(len(plan['clients'])):
+            ref[c], ff, ncalls = isolate.call(run_ref_client, (plan, c), timeout=300)
+            ref_findings.extend(ff)
+            st['forks'] = st.get('forks', 0) + 1
+            st['iso_calls'] = st.get('iso_calls', 0) + ncalls
+    finally:
+        if _SERVER is not None:
+            _SERVER.close()
+        _SERVER = None
     encs, findings, events, info = run_sim(plan, st)
+    seen = set(f['key'] for f in findings)
+    findings.extend(f for f in ref_findings if f['key'] not in seen)
     for c in sorted(encs):
         for k in sorted(encs[c]):
             if k in ref[c] and encs[c][k] != ref[c][k]:
